@@ -1,10 +1,733 @@
+// wireless.cc - independent reference implementations (oracle) of
+//   ZUC-128 (128-EEA3 / 128-EIA3), ZUC-256 (cipher / MAC 32,64,128),
+//   SNOW 3G (UEA2 / UIA2), KASUMI (f8 / f9)
+// written from the published ETSI/SAGE / 3GPP specifications.
+// Plain scalar C++17; clarity over speed. See NOTES.md for byte-layout facts.
 #include "wireless.h"
-// stubs until the hand-written implementations are admitted against the standard vectors
-bool ref_zuc_eea3(const uint8_t *, const uint8_t *, const uint8_t *, uint8_t *, size_t) { return false; }
-bool ref_zuc256_eea3(const uint8_t *, const uint8_t *, size_t, const uint8_t *, uint8_t *, size_t) { return false; }
-bool ref_zuc_eia3(const uint8_t *, const uint8_t *, const uint8_t *, uint32_t, Bytes &) { return false; }
-bool ref_zuc256_eia3(const uint8_t *, const uint8_t *, size_t, const uint8_t *, uint32_t, size_t, Bytes &) { return false; }
-bool ref_snow3g_f8_keystream(const uint8_t *, const uint8_t *, uint8_t *, size_t) { return false; }
-bool ref_snow3g_uia2(const uint8_t *, const uint8_t *, const uint8_t *, uint32_t, Bytes &) { return false; }
-bool ref_kasumi_f8_keystream(const uint8_t *, const uint8_t *, uint8_t *, size_t) { return false; }
-bool ref_kasumi_f9_user(const uint8_t *, const uint8_t *, size_t, Bytes &) { return false; }
+
+// ===========================================================================
+// Published constant tables
+//   ZUC S0 / S1        : ZUC specification v1.6, section 3.4.2 (tables 3.1 / 3.2)
+//   SNOW 3G SR / SQ    : SNOW 3G specification, section 3.3 (SR = Rijndael S-box, SQ Dickson)
+//   KASUMI S7 / S9     : TS 35.202, section 4.5
+// The self-test validates each of them structurally and with the official vectors.
+// ===========================================================================
+// Declared here as well (the self-test uses them) so that this file does not depend on the
+// including header providing these declarations.
+extern const uint8_t ref_zuc_S0[256];
+extern const uint8_t ref_zuc_S1[256];
+extern const uint8_t ref_snow3g_SR[256];
+extern const uint8_t ref_snow3g_SQ[256];
+extern const uint8_t ref_kasumi_S7[128];
+extern const uint16_t ref_kasumi_S9[512];
+uint64_t ref_kasumi_block(const uint8_t key[16], uint64_t in);
+
+const uint8_t ref_zuc_S0[256] = {
+    0x3E, 0x72, 0x5B, 0x47, 0xCA, 0xE0, 0x00, 0x33, 0x04, 0xD1, 0x54, 0x98, 0x09, 0xB9, 0x6D, 0xCB,
+    0x7B, 0x1B, 0xF9, 0x32, 0xAF, 0x9D, 0x6A, 0xA5, 0xB8, 0x2D, 0xFC, 0x1D, 0x08, 0x53, 0x03, 0x90,
+    0x4D, 0x4E, 0x84, 0x99, 0xE4, 0xCE, 0xD9, 0x91, 0xDD, 0xB6, 0x85, 0x48, 0x8B, 0x29, 0x6E, 0xAC,
+    0xCD, 0xC1, 0xF8, 0x1E, 0x73, 0x43, 0x69, 0xC6, 0xB5, 0xBD, 0xFD, 0x39, 0x63, 0x20, 0xD4, 0x38,
+    0x76, 0x7D, 0xB2, 0xA7, 0xCF, 0xED, 0x57, 0xC5, 0xF3, 0x2C, 0xBB, 0x14, 0x21, 0x06, 0x55, 0x9B,
+    0xE3, 0xEF, 0x5E, 0x31, 0x4F, 0x7F, 0x5A, 0xA4, 0x0D, 0x82, 0x51, 0x49, 0x5F, 0xBA, 0x58, 0x1C,
+    0x4A, 0x16, 0xD5, 0x17, 0xA8, 0x92, 0x24, 0x1F, 0x8C, 0xFF, 0xD8, 0xAE, 0x2E, 0x01, 0xD3, 0xAD,
+    0x3B, 0x4B, 0xDA, 0x46, 0xEB, 0xC9, 0xDE, 0x9A, 0x8F, 0x87, 0xD7, 0x3A, 0x80, 0x6F, 0x2F, 0xC8,
+    0xB1, 0xB4, 0x37, 0xF7, 0x0A, 0x22, 0x13, 0x28, 0x7C, 0xCC, 0x3C, 0x89, 0xC7, 0xC3, 0x96, 0x56,
+    0x07, 0xBF, 0x7E, 0xF0, 0x0B, 0x2B, 0x97, 0x52, 0x35, 0x41, 0x79, 0x61, 0xA6, 0x4C, 0x10, 0xFE,
+    0xBC, 0x26, 0x95, 0x88, 0x8A, 0xB0, 0xA3, 0xFB, 0xC0, 0x18, 0x94, 0xF2, 0xE1, 0xE5, 0xE9, 0x5D,
+    0xD0, 0xDC, 0x11, 0x66, 0x64, 0x5C, 0xEC, 0x59, 0x42, 0x75, 0x12, 0xF5, 0x74, 0x9C, 0xAA, 0x23,
+    0x0E, 0x86, 0xAB, 0xBE, 0x2A, 0x02, 0xE7, 0x67, 0xE6, 0x44, 0xA2, 0x6C, 0xC2, 0x93, 0x9F, 0xF1,
+    0xF6, 0xFA, 0x36, 0xD2, 0x50, 0x68, 0x9E, 0x62, 0x71, 0x15, 0x3D, 0xD6, 0x40, 0xC4, 0xE2, 0x0F,
+    0x8E, 0x83, 0x77, 0x6B, 0x25, 0x05, 0x3F, 0x0C, 0x30, 0xEA, 0x70, 0xB7, 0xA1, 0xE8, 0xA9, 0x65,
+    0x8D, 0x27, 0x1A, 0xDB, 0x81, 0xB3, 0xA0, 0xF4, 0x45, 0x7A, 0x19, 0xDF, 0xEE, 0x78, 0x34, 0x60
+};
+
+const uint8_t ref_zuc_S1[256] = {
+    0x55, 0xC2, 0x63, 0x71, 0x3B, 0xC8, 0x47, 0x86, 0x9F, 0x3C, 0xDA, 0x5B, 0x29, 0xAA, 0xFD, 0x77,
+    0x8C, 0xC5, 0x94, 0x0C, 0xA6, 0x1A, 0x13, 0x00, 0xE3, 0xA8, 0x16, 0x72, 0x40, 0xF9, 0xF8, 0x42,
+    0x44, 0x26, 0x68, 0x96, 0x81, 0xD9, 0x45, 0x3E, 0x10, 0x76, 0xC6, 0xA7, 0x8B, 0x39, 0x43, 0xE1,
+    0x3A, 0xB5, 0x56, 0x2A, 0xC0, 0x6D, 0xB3, 0x05, 0x22, 0x66, 0xBF, 0xDC, 0x0B, 0xFA, 0x62, 0x48,
+    0xDD, 0x20, 0x11, 0x06, 0x36, 0xC9, 0xC1, 0xCF, 0xF6, 0x27, 0x52, 0xBB, 0x69, 0xF5, 0xD4, 0x87,
+    0x7F, 0x84, 0x4C, 0xD2, 0x9C, 0x57, 0xA4, 0xBC, 0x4F, 0x9A, 0xDF, 0xFE, 0xD6, 0x8D, 0x7A, 0xEB,
+    0x2B, 0x53, 0xD8, 0x5C, 0xA1, 0x14, 0x17, 0xFB, 0x23, 0xD5, 0x7D, 0x30, 0x67, 0x73, 0x08, 0x09,
+    0xEE, 0xB7, 0x70, 0x3F, 0x61, 0xB2, 0x19, 0x8E, 0x4E, 0xE5, 0x4B, 0x93, 0x8F, 0x5D, 0xDB, 0xA9,
+    0xAD, 0xF1, 0xAE, 0x2E, 0xCB, 0x0D, 0xFC, 0xF4, 0x2D, 0x46, 0x6E, 0x1D, 0x97, 0xE8, 0xD1, 0xE9,
+    0x4D, 0x37, 0xA5, 0x75, 0x5E, 0x83, 0x9E, 0xAB, 0x82, 0x9D, 0xB9, 0x1C, 0xE0, 0xCD, 0x49, 0x89,
+    0x01, 0xB6, 0xBD, 0x58, 0x24, 0xA2, 0x5F, 0x38, 0x78, 0x99, 0x15, 0x90, 0x50, 0xB8, 0x95, 0xE4,
+    0xD0, 0x91, 0xC7, 0xCE, 0xED, 0x0F, 0xB4, 0x6F, 0xA0, 0xCC, 0xF0, 0x02, 0x4A, 0x79, 0xC3, 0xDE,
+    0xA3, 0xEF, 0xEA, 0x51, 0xE6, 0x6B, 0x18, 0xEC, 0x1B, 0x2C, 0x80, 0xF7, 0x74, 0xE7, 0xFF, 0x21,
+    0x5A, 0x6A, 0x54, 0x1E, 0x41, 0x31, 0x92, 0x35, 0xC4, 0x33, 0x07, 0x0A, 0xBA, 0x7E, 0x0E, 0x34,
+    0x88, 0xB1, 0x98, 0x7C, 0xF3, 0x3D, 0x60, 0x6C, 0x7B, 0xCA, 0xD3, 0x1F, 0x32, 0x65, 0x04, 0x28,
+    0x64, 0xBE, 0x85, 0x9B, 0x2F, 0x59, 0x8A, 0xD7, 0xB0, 0x25, 0xAC, 0xAF, 0x12, 0x03, 0xE2, 0xF2
+};
+
+const uint8_t ref_snow3g_SR[256] = {
+    0x63, 0x7C, 0x77, 0x7B, 0xF2, 0x6B, 0x6F, 0xC5, 0x30, 0x01, 0x67, 0x2B, 0xFE, 0xD7, 0xAB, 0x76,
+    0xCA, 0x82, 0xC9, 0x7D, 0xFA, 0x59, 0x47, 0xF0, 0xAD, 0xD4, 0xA2, 0xAF, 0x9C, 0xA4, 0x72, 0xC0,
+    0xB7, 0xFD, 0x93, 0x26, 0x36, 0x3F, 0xF7, 0xCC, 0x34, 0xA5, 0xE5, 0xF1, 0x71, 0xD8, 0x31, 0x15,
+    0x04, 0xC7, 0x23, 0xC3, 0x18, 0x96, 0x05, 0x9A, 0x07, 0x12, 0x80, 0xE2, 0xEB, 0x27, 0xB2, 0x75,
+    0x09, 0x83, 0x2C, 0x1A, 0x1B, 0x6E, 0x5A, 0xA0, 0x52, 0x3B, 0xD6, 0xB3, 0x29, 0xE3, 0x2F, 0x84,
+    0x53, 0xD1, 0x00, 0xED, 0x20, 0xFC, 0xB1, 0x5B, 0x6A, 0xCB, 0xBE, 0x39, 0x4A, 0x4C, 0x58, 0xCF,
+    0xD0, 0xEF, 0xAA, 0xFB, 0x43, 0x4D, 0x33, 0x85, 0x45, 0xF9, 0x02, 0x7F, 0x50, 0x3C, 0x9F, 0xA8,
+    0x51, 0xA3, 0x40, 0x8F, 0x92, 0x9D, 0x38, 0xF5, 0xBC, 0xB6, 0xDA, 0x21, 0x10, 0xFF, 0xF3, 0xD2,
+    0xCD, 0x0C, 0x13, 0xEC, 0x5F, 0x97, 0x44, 0x17, 0xC4, 0xA7, 0x7E, 0x3D, 0x64, 0x5D, 0x19, 0x73,
+    0x60, 0x81, 0x4F, 0xDC, 0x22, 0x2A, 0x90, 0x88, 0x46, 0xEE, 0xB8, 0x14, 0xDE, 0x5E, 0x0B, 0xDB,
+    0xE0, 0x32, 0x3A, 0x0A, 0x49, 0x06, 0x24, 0x5C, 0xC2, 0xD3, 0xAC, 0x62, 0x91, 0x95, 0xE4, 0x79,
+    0xE7, 0xC8, 0x37, 0x6D, 0x8D, 0xD5, 0x4E, 0xA9, 0x6C, 0x56, 0xF4, 0xEA, 0x65, 0x7A, 0xAE, 0x08,
+    0xBA, 0x78, 0x25, 0x2E, 0x1C, 0xA6, 0xB4, 0xC6, 0xE8, 0xDD, 0x74, 0x1F, 0x4B, 0xBD, 0x8B, 0x8A,
+    0x70, 0x3E, 0xB5, 0x66, 0x48, 0x03, 0xF6, 0x0E, 0x61, 0x35, 0x57, 0xB9, 0x86, 0xC1, 0x1D, 0x9E,
+    0xE1, 0xF8, 0x98, 0x11, 0x69, 0xD9, 0x8E, 0x94, 0x9B, 0x1E, 0x87, 0xE9, 0xCE, 0x55, 0x28, 0xDF,
+    0x8C, 0xA1, 0x89, 0x0D, 0xBF, 0xE6, 0x42, 0x68, 0x41, 0x99, 0x2D, 0x0F, 0xB0, 0x54, 0xBB, 0x16
+};
+
+const uint8_t ref_snow3g_SQ[256] = {
+    0x25, 0x24, 0x73, 0x67, 0xD7, 0xAE, 0x5C, 0x30, 0xA4, 0xEE, 0x6E, 0xCB, 0x7D, 0xB5, 0x82, 0xDB,
+    0xE4, 0x8E, 0x48, 0x49, 0x4F, 0x5D, 0x6A, 0x78, 0x70, 0x88, 0xE8, 0x5F, 0x5E, 0x84, 0x65, 0xE2,
+    0xD8, 0xE9, 0xCC, 0xED, 0x40, 0x2F, 0x11, 0x28, 0x57, 0xD2, 0xAC, 0xE3, 0x4A, 0x15, 0x1B, 0xB9,
+    0xB2, 0x80, 0x85, 0xA6, 0x2E, 0x02, 0x47, 0x29, 0x07, 0x4B, 0x0E, 0xC1, 0x51, 0xAA, 0x89, 0xD4,
+    0xCA, 0x01, 0x46, 0xB3, 0xEF, 0xDD, 0x44, 0x7B, 0xC2, 0x7F, 0xBE, 0xC3, 0x9F, 0x20, 0x4C, 0x64,
+    0x83, 0xA2, 0x68, 0x42, 0x13, 0xB4, 0x41, 0xCD, 0xBA, 0xC6, 0xBB, 0x6D, 0x4D, 0x71, 0x21, 0xF4,
+    0x8D, 0xB0, 0xE5, 0x93, 0xFE, 0x8F, 0xE6, 0xCF, 0x43, 0x45, 0x31, 0x22, 0x37, 0x36, 0x96, 0xFA,
+    0xBC, 0x0F, 0x08, 0x52, 0x1D, 0x55, 0x1A, 0xC5, 0x4E, 0x23, 0x69, 0x7A, 0x92, 0xFF, 0x5B, 0x5A,
+    0xEB, 0x9A, 0x1C, 0xA9, 0xD1, 0x7E, 0x0D, 0xFC, 0x50, 0x8A, 0xB6, 0x62, 0xF5, 0x0A, 0xF8, 0xDC,
+    0x03, 0x3C, 0x0C, 0x39, 0xF1, 0xB8, 0xF3, 0x3D, 0xF2, 0xD5, 0x97, 0x66, 0x81, 0x32, 0xA0, 0x00,
+    0x06, 0xCE, 0xF6, 0xEA, 0xB7, 0x17, 0xF7, 0x8C, 0x79, 0xD6, 0xA7, 0xBF, 0x8B, 0x3F, 0x1F, 0x53,
+    0x63, 0x75, 0x35, 0x2C, 0x60, 0xFD, 0x27, 0xD3, 0x94, 0xA5, 0x7C, 0xA1, 0x05, 0x58, 0x2D, 0xBD,
+    0xD9, 0xC7, 0xAF, 0x6B, 0x54, 0x0B, 0xE0, 0x38, 0x04, 0xC8, 0x9D, 0xE7, 0x14, 0xB1, 0x87, 0x9C,
+    0xDF, 0x6F, 0xF9, 0xDA, 0x2A, 0xC4, 0x59, 0x16, 0x74, 0x91, 0xAB, 0x26, 0x61, 0x76, 0x34, 0x2B,
+    0xAD, 0x99, 0xFB, 0x72, 0xEC, 0x33, 0x12, 0xDE, 0x98, 0x3B, 0xC0, 0x9B, 0x3E, 0x18, 0x10, 0x3A,
+    0x56, 0xE1, 0x77, 0xC9, 0x1E, 0x9E, 0x95, 0xA3, 0x90, 0x19, 0xA8, 0x6C, 0x09, 0xD0, 0xF0, 0x86
+};
+
+const uint8_t ref_kasumi_S7[128] = {
+     54,  50,  62,  56,  22,  34,  94,  96,  38,   6,  63,  93,   2,  18, 123,  33,
+     55, 113,  39, 114,  21,  67,  65,  12,  47,  73,  46,  27,  25, 111, 124,  81,
+     53,   9, 121,  79,  52,  60,  58,  48, 101, 127,  40, 120, 104,  70,  71,  43,
+     20, 122,  72,  61,  23, 109,  13, 100,  77,   1,  16,   7,  82,  10, 105,  98,
+    117, 116,  76,  11,  89, 106,   0, 125, 118,  99,  86,  69,  30,  57, 126,  87,
+    112,  51,  17,   5,  95,  14,  90,  84,  91,   8,  35, 103,  32,  97,  28,  66,
+    102,  31,  26,  45,  75,   4,  85,  92,  37,  74,  80,  49,  68,  29, 115,  44,
+     64, 107, 108,  24, 110,  83,  36,  78,  42,  19,  15,  41,  88, 119,  59,   3
+};
+
+const uint16_t ref_kasumi_S9[512] = {
+    167, 239, 161, 379, 391, 334,   9, 338,  38, 226,  48, 358, 452, 385,  90, 397,
+    183, 253, 147, 331, 415, 340,  51, 362, 306, 500, 262,  82, 216, 159, 356, 177,
+    175, 241, 489,  37, 206,  17,   0, 333,  44, 254, 378,  58, 143, 220,  81, 400,
+     95,   3, 315, 245,  54, 235, 218, 405, 472, 264, 172, 494, 371, 290, 399,  76,
+    165, 197, 395, 121, 257, 480, 423, 212, 240,  28, 462, 176, 406, 507, 288, 223,
+    501, 407, 249, 265,  89, 186, 221, 428, 164,  74, 440, 196, 458, 421, 350, 163,
+    232, 158, 134, 354,  13, 250, 491, 142, 191,  69, 193, 425, 152, 227, 366, 135,
+    344, 300, 276, 242, 437, 320, 113, 278,  11, 243,  87, 317,  36,  93, 496,  27,
+    487, 446, 482,  41,  68, 156, 457, 131, 326, 403, 339,  20,  39, 115, 442, 124,
+    475, 384, 508,  53, 112, 170, 479, 151, 126, 169,  73, 268, 279, 321, 168, 364,
+    363, 292,  46, 499, 393, 327, 324,  24, 456, 267, 157, 460, 488, 426, 309, 229,
+    439, 506, 208, 271, 349, 401, 434, 236,  16, 209, 359,  52,  56, 120, 199, 277,
+    465, 416, 252, 287, 246,   6,  83, 305, 420, 345, 153, 502,  65,  61, 244, 282,
+    173, 222, 418,  67, 386, 368, 261, 101, 476, 291, 195, 430,  49,  79, 166, 330,
+    280, 383, 373, 128, 382, 408, 155, 495, 367, 388, 274, 107, 459, 417,  62, 454,
+    132, 225, 203, 316, 234,  14, 301,  91, 503, 286, 424, 211, 347, 307, 140, 374,
+     35, 103, 125, 427,  19, 214, 453, 146, 498, 314, 444, 230, 256, 329, 198, 285,
+     50, 116,  78, 410,  10, 205, 510, 171, 231,  45, 139, 467,  29,  86, 505,  32,
+     72,  26, 342, 150, 313, 490, 431, 238, 411, 325, 149, 473,  40, 119, 174, 355,
+    185, 233, 389,  71, 448, 273, 372,  55, 110, 178, 322,  12, 469, 392, 369, 190,
+      1, 109, 375, 137, 181,  88,  75, 308, 260, 484,  98, 272, 370, 275, 412, 111,
+    336, 318,   4, 504, 492, 259, 304,  77, 337, 435,  21, 357, 303, 332, 483,  18,
+     47,  85,  25, 497, 474, 289, 100, 269, 296, 478, 270, 106,  31, 104, 433,  84,
+    414, 486, 394,  96,  99, 154, 511, 148, 413, 361, 409, 255, 162, 215, 302, 201,
+    266, 351, 343, 144, 441, 365, 108, 298, 251,  34, 182, 509, 138, 210, 335, 133,
+    311, 352, 328, 141, 396, 346, 123, 319, 450, 281, 429, 228, 443, 481,  92, 404,
+    485, 422, 248, 297,  23, 213, 130, 466,  22, 217, 283,  70, 294, 360, 419, 127,
+    312, 377,   7, 468, 194,   2, 117, 295, 463, 258, 224, 447, 247, 187,  80, 398,
+    284, 353, 105, 390, 299, 471, 470, 184,  57, 200, 348,  63, 204, 188,  33, 451,
+     97,  30, 310, 219,  94, 160, 129, 493,  64, 179, 263, 102, 189, 207, 114, 402,
+    438, 477, 387, 122, 192,  42, 381,   5, 145, 118, 180, 449, 293, 323, 136, 380,
+     43,  66,  60, 455, 341, 445, 202, 432,   8, 237,  15, 376, 436, 464,  59, 461
+};
+
+// ===========================================================================
+// Small helpers
+// ===========================================================================
+static inline uint32_t be32(const uint8_t *p)
+{
+        return ((uint32_t) p[0] << 24) | ((uint32_t) p[1] << 16) | ((uint32_t) p[2] << 8) | p[3];
+}
+static inline void put_be32(uint8_t *p, uint32_t v)
+{
+        p[0] = (uint8_t) (v >> 24);
+        p[1] = (uint8_t) (v >> 16);
+        p[2] = (uint8_t) (v >> 8);
+        p[3] = (uint8_t) v;
+}
+static inline uint32_t rol32(uint32_t v, unsigned r) { return (v << r) | (v >> (32 - r)); }
+static inline uint16_t rol16(uint16_t v, unsigned r)
+{
+        return (uint16_t) ((v << r) | (v >> (16 - r)));
+}
+// bit i (0 = most significant bit of byte 0) of a message
+static inline unsigned msg_bit(const uint8_t *m, uint64_t i) { return (m[i >> 3] >> (7 - (i & 7))) & 1; }
+
+// ===========================================================================
+// ZUC (ETSI/SAGE "Specification of the 3GPP Confidentiality and Integrity
+// Algorithms 128-EEA3 & 128-EIA3, Document 2: ZUC Specification", v1.6) and
+// ZUC-256 ("The ZUC-256 Stream Cipher" + "A new initialization scheme" MAC sizes)
+// ===========================================================================
+namespace
+{
+
+struct Zuc {
+        uint32_t s[16]; // 31-bit LFSR cells
+        uint32_t R1, R2;
+        uint32_t X[4];
+
+        static uint32_t add31(uint32_t a, uint32_t b) // a + b mod (2^31 - 1)
+        {
+                uint32_t c = a + b;
+                return (c & 0x7FFFFFFF) + (c >> 31);
+        }
+        static uint32_t mul2k(uint32_t a, unsigned k) // a * 2^k mod (2^31 - 1) = 31-bit rotate
+        {
+                return ((a << k) | (a >> (31 - k))) & 0x7FFFFFFF;
+        }
+        uint32_t lfsr_v() const
+        {
+                uint32_t v = s[0];
+                v = add31(v, mul2k(s[0], 8));
+                v = add31(v, mul2k(s[4], 20));
+                v = add31(v, mul2k(s[10], 21));
+                v = add31(v, mul2k(s[13], 17));
+                v = add31(v, mul2k(s[15], 15));
+                return v;
+        }
+        void shift_in(uint32_t s16)
+        {
+                if (s16 == 0)
+                        s16 = 0x7FFFFFFF;
+                for (int i = 0; i < 15; i++)
+                        s[i] = s[i + 1];
+                s[15] = s16;
+        }
+        void lfsr_init_mode(uint32_t u) { shift_in(add31(lfsr_v(), u)); }
+        void lfsr_work_mode() { shift_in(lfsr_v()); }
+
+        void bit_reorg()
+        {
+                X[0] = ((s[15] & 0x7FFF8000) << 1) | (s[14] & 0xFFFF);
+                X[1] = ((s[11] & 0xFFFF) << 16) | (s[9] >> 15);
+                X[2] = ((s[7] & 0xFFFF) << 16) | (s[5] >> 15);
+                X[3] = ((s[2] & 0xFFFF) << 16) | (s[0] >> 15);
+        }
+        static uint32_t L1(uint32_t x)
+        {
+                return x ^ rol32(x, 2) ^ rol32(x, 10) ^ rol32(x, 18) ^ rol32(x, 24);
+        }
+        static uint32_t L2(uint32_t x)
+        {
+                return x ^ rol32(x, 8) ^ rol32(x, 14) ^ rol32(x, 22) ^ rol32(x, 30);
+        }
+        static uint32_t S(uint32_t x)
+        {
+                return ((uint32_t) ref_zuc_S0[x >> 24] << 24) |
+                       ((uint32_t) ref_zuc_S1[(x >> 16) & 0xFF] << 16) |
+                       ((uint32_t) ref_zuc_S0[(x >> 8) & 0xFF] << 8) |
+                       (uint32_t) ref_zuc_S1[x & 0xFF];
+        }
+        uint32_t F()
+        {
+                const uint32_t W = (X[0] ^ R1) + R2;
+                const uint32_t W1 = R1 + X[1];
+                const uint32_t W2 = R2 ^ X[2];
+                R1 = S(L1((W1 << 16) | (W2 >> 16)));
+                R2 = S(L2((W2 << 16) | (W1 >> 16)));
+                return W;
+        }
+        // common initialisation stage once the LFSR has been loaded
+        void run_init()
+        {
+                R1 = R2 = 0;
+                for (int i = 0; i < 32; i++) {
+                        bit_reorg();
+                        const uint32_t W = F();
+                        lfsr_init_mode(W >> 1);
+                }
+                bit_reorg();
+                (void) F(); // output discarded
+                lfsr_work_mode();
+        }
+        uint32_t next_word()
+        {
+                bit_reorg();
+                const uint32_t Z = F() ^ X[3];
+                lfsr_work_mode();
+                return Z;
+        }
+
+        void init128(const uint8_t k[16], const uint8_t iv[16])
+        {
+                static const uint16_t D[16] = { 0x44D7, 0x26BC, 0x626B, 0x135E, 0x5789, 0x35E2,
+                                                0x7135, 0x09AF, 0x4D78, 0x2F13, 0x6BC4, 0x1AF1,
+                                                0x5E26, 0x3C4D, 0x789A, 0x47AC };
+                for (int i = 0; i < 16; i++)
+                        s[i] = ((uint32_t) k[i] << 23) | ((uint32_t) D[i] << 8) | iv[i];
+                run_init();
+        }
+
+        // tag_len: 0 = keystream (cipher), 4 / 8 / 16 = MAC of that many bytes.
+        // IV[0..16] are 8-bit values, IV[17..24] are 6-bit values.
+        void init256(const uint8_t K[32], const uint8_t IV[25], size_t tag_len)
+        {
+                static const uint8_t D_ENC[16] = { 0x22, 0x2F, 0x24, 0x2A, 0x6D, 0x40, 0x40, 0x40,
+                                                   0x40, 0x40, 0x40, 0x40, 0x40, 0x52, 0x10, 0x30 };
+                static const uint8_t D_MAC32[16] = { 0x22, 0x2F, 0x25, 0x2A, 0x6D, 0x40, 0x40, 0x40,
+                                                     0x40, 0x40, 0x40, 0x40, 0x40, 0x52, 0x10, 0x30 };
+                static const uint8_t D_MAC64[16] = { 0x23, 0x2F, 0x24, 0x2A, 0x6D, 0x40, 0x40, 0x40,
+                                                     0x40, 0x40, 0x40, 0x40, 0x40, 0x52, 0x10, 0x30 };
+                static const uint8_t D_MAC128[16] = { 0x23, 0x2F, 0x25, 0x2A, 0x6D, 0x40, 0x40,
+                                                      0x40, 0x40, 0x40, 0x40, 0x40, 0x40, 0x52,
+                                                      0x10, 0x30 };
+                const uint8_t *d = tag_len == 4    ? D_MAC32
+                                   : tag_len == 8  ? D_MAC64
+                                   : tag_len == 16 ? D_MAC128
+                                                   : D_ENC;
+                // a | b | c | e  with sizes 8 | 7 | 8 | 8 bits
+                auto mk = [](uint32_t a, uint32_t b, uint32_t c, uint32_t e) -> uint32_t {
+                        return (a << 23) | ((b & 0x7F) << 16) | (c << 8) | e;
+                };
+                s[0] = mk(K[0], d[0], K[21], K[16]);
+                s[1] = mk(K[1], d[1], K[22], K[17]);
+                s[2] = mk(K[2], d[2], K[23], K[18]);
+                s[3] = mk(K[3], d[3], K[24], K[19]);
+                s[4] = mk(K[4], d[4], K[25], K[20]);
+                s[5] = mk(IV[0], d[5] | IV[17], K[5], K[26]);
+                s[6] = mk(IV[1], d[6] | IV[18], K[6], K[27]);
+                s[7] = mk(IV[10], d[7] | IV[19], K[7], IV[2]);
+                s[8] = mk(K[8], d[8] | IV[20], IV[3], IV[11]);
+                s[9] = mk(K[9], d[9] | IV[21], IV[12], IV[4]);
+                s[10] = mk(IV[5], d[10] | IV[22], K[10], K[28]);
+                s[11] = mk(K[11], d[11] | IV[23], IV[6], IV[13]);
+                s[12] = mk(K[12], d[12] | IV[24], IV[7], IV[14]);
+                s[13] = mk(K[13], d[13], IV[15], IV[8]);
+                s[14] = mk(K[14], d[14] | (K[31] >> 4), IV[16], IV[9]);
+                s[15] = mk(K[15], d[15] | (K[31] & 0x0F), K[30], K[29]);
+                run_init();
+        }
+};
+
+// Bring either form of the ZUC-256 IV to 25 elements (17 bytes + 8 six-bit values).
+bool zuc256_unpack_iv(const uint8_t *iv, size_t iv_len, uint8_t out[25])
+{
+        if (iv_len == 25) {
+                for (int i = 0; i < 17; i++)
+                        out[i] = iv[i];
+                for (int i = 17; i < 25; i++)
+                        out[i] = iv[i] & 0x3F; // only 6 bits are defined
+                return true;
+        }
+        if (iv_len == 23) {
+                for (int i = 0; i < 17; i++)
+                        out[i] = iv[i];
+                // 48 bits, most significant first, cut into eight 6-bit values
+                uint64_t v = 0;
+                for (int i = 17; i < 23; i++)
+                        v = (v << 8) | iv[i];
+                for (int i = 0; i < 8; i++)
+                        out[17 + i] = (uint8_t) ((v >> (42 - 6 * i)) & 0x3F);
+                return true;
+        }
+        return false;
+}
+
+void xor_keystream(Zuc &z, const uint8_t *in, uint8_t *out, size_t len)
+{
+        size_t i = 0;
+        while (i < len) {
+                uint8_t w[4];
+                put_be32(w, z.next_word());
+                for (int j = 0; j < 4 && i < len; j++, i++)
+                        out[i] = in[i] ^ w[j];
+        }
+}
+
+// 32-bit window of the keystream word array starting at bit position `pos`
+inline uint32_t ks_window32(const std::vector<uint32_t> &z, uint64_t pos)
+{
+        const size_t w = (size_t) (pos >> 5);
+        const unsigned r = (unsigned) (pos & 31);
+        if (r == 0)
+                return z[w];
+        return (z[w] << r) | (z[w + 1] >> (32 - r));
+}
+
+} // namespace
+
+bool ref_zuc_eea3(const uint8_t key[16], const uint8_t iv[16], const uint8_t *in, uint8_t *out,
+                  size_t len)
+{
+        Zuc z;
+        z.init128(key, iv);
+        xor_keystream(z, in, out, len);
+        return true;
+}
+
+bool ref_zuc256_eea3(const uint8_t key[32], const uint8_t *iv, size_t iv_len, const uint8_t *in,
+                     uint8_t *out, size_t len)
+{
+        uint8_t iv25[25];
+        if (!zuc256_unpack_iv(iv, iv_len, iv25))
+                return true; // admitted, nothing defined to compute
+        Zuc z;
+        z.init256(key, iv25, 0);
+        xor_keystream(z, in, out, len);
+        return true;
+}
+
+// 128-EIA3 (Document 1, v1.6 and later: T accumulates z_i windows, i = bit index)
+bool ref_zuc_eia3(const uint8_t key[16], const uint8_t iv[16], const uint8_t *msg, uint32_t bits,
+                  Bytes &tag)
+{
+        Zuc z;
+        z.init128(key, iv);
+        const uint64_t LENGTH = bits;
+        const size_t L = (size_t) ((LENGTH + 31) / 32) + 2;
+        std::vector<uint32_t> ks(L + 1); // one spare word so that every window read is in range
+        for (size_t i = 0; i < L; i++)
+                ks[i] = z.next_word();
+        ks[L] = 0;
+        uint32_t T = 0;
+        for (uint64_t i = 0; i < LENGTH; i++)
+                if (msg_bit(msg, i))
+                        T ^= ks_window32(ks, i);
+        T ^= ks_window32(ks, LENGTH);
+        T ^= ks[L - 1];
+        tag.assign(4, 0);
+        put_be32(tag.data(), T);
+        return true;
+}
+
+bool ref_zuc256_eia3(const uint8_t key[32], const uint8_t *iv, size_t iv_len, const uint8_t *msg,
+                     uint32_t bits, size_t tag_len, Bytes &tag)
+{
+        tag.clear();
+        uint8_t iv25[25];
+        if (!zuc256_unpack_iv(iv, iv_len, iv25))
+                return true;
+        if (tag_len != 4 && tag_len != 8 && tag_len != 16)
+                return true;
+        Zuc z;
+        z.init256(key, iv25, tag_len);
+        const size_t tw = tag_len / 4;  // tag size in words
+        const uint64_t t = tag_len * 8; // tag size in bits
+        const uint64_t LENGTH = bits;
+        // keystream needed: bits [0, t) initial tag, windows start at t + i, i = 0..LENGTH,
+        // each t bits long -> up to bit 2t + LENGTH
+        const size_t L = (size_t) ((2 * t + LENGTH + 31) / 32);
+        std::vector<uint32_t> ks(L + 1);
+        for (size_t i = 0; i < L; i++)
+                ks[i] = z.next_word();
+        ks[L] = 0;
+        std::vector<uint32_t> T(tw);
+        for (size_t j = 0; j < tw; j++)
+                T[j] = ks[j];
+        for (uint64_t i = 0; i <= LENGTH; i++) {
+                // message bits select windows; the window after the last bit is always added
+                if (i == LENGTH || msg_bit(msg, i))
+                        for (size_t j = 0; j < tw; j++)
+                                T[j] ^= ks_window32(ks, t + i + 32 * j);
+        }
+        tag.assign(tag_len, 0);
+        for (size_t j = 0; j < tw; j++)
+                put_be32(&tag[4 * j], T[j]);
+        return true;
+}
+
+// ===========================================================================
+// SNOW 3G (ETSI/SAGE "UEA2 & UIA2 Document 2: SNOW 3G Specification") and
+// UEA2 / UIA2 (Document 1 = TS 35.215)
+// ===========================================================================
+namespace
+{
+
+inline uint8_t MULx(uint8_t V, uint8_t c) { return (V & 0x80) ? (uint8_t) ((V << 1) ^ c) : (uint8_t) (V << 1); }
+inline uint8_t MULxPOW(uint8_t V, unsigned i, uint8_t c)
+{
+        while (i--)
+                V = MULx(V, c);
+        return V;
+}
+inline uint32_t MULalpha(uint8_t c)
+{
+        return ((uint32_t) MULxPOW(c, 23, 0xA9) << 24) | ((uint32_t) MULxPOW(c, 245, 0xA9) << 16) |
+               ((uint32_t) MULxPOW(c, 48, 0xA9) << 8) | (uint32_t) MULxPOW(c, 239, 0xA9);
+}
+inline uint32_t DIValpha(uint8_t c)
+{
+        return ((uint32_t) MULxPOW(c, 16, 0xA9) << 24) | ((uint32_t) MULxPOW(c, 39, 0xA9) << 16) |
+               ((uint32_t) MULxPOW(c, 6, 0xA9) << 8) | (uint32_t) MULxPOW(c, 64, 0xA9);
+}
+// MixColumn-like 32x32 S-box built from an 8-bit S-box and reduction constant c
+inline uint32_t snow_sbox32(uint32_t w, const uint8_t *box, uint8_t c)
+{
+        const uint8_t b0 = box[w >> 24], b1 = box[(w >> 16) & 0xFF], b2 = box[(w >> 8) & 0xFF],
+                      b3 = box[w & 0xFF];
+        const uint8_t r0 = MULx(b0, c) ^ b1 ^ b2 ^ MULx(b3, c) ^ b3;
+        const uint8_t r1 = MULx(b0, c) ^ b0 ^ MULx(b1, c) ^ b2 ^ b3;
+        const uint8_t r2 = b0 ^ MULx(b1, c) ^ b1 ^ MULx(b2, c) ^ b3;
+        const uint8_t r3 = b0 ^ b1 ^ MULx(b2, c) ^ b2 ^ MULx(b3, c);
+        return ((uint32_t) r0 << 24) | ((uint32_t) r1 << 16) | ((uint32_t) r2 << 8) | r3;
+}
+
+struct Snow3g {
+        uint32_t s[16];
+        uint32_t R1, R2, R3;
+
+        uint32_t clock_fsm()
+        {
+                const uint32_t F = (s[15] + R1) ^ R2;
+                const uint32_t r = R2 + (R3 ^ s[5]);
+                R3 = snow_sbox32(R2, ref_snow3g_SQ, 0x69);
+                R2 = snow_sbox32(R1, ref_snow3g_SR, 0x1B);
+                R1 = r;
+                return F;
+        }
+        void clock_lfsr(uint32_t extra)
+        {
+                const uint32_t v = (s[0] << 8) ^ MULalpha((uint8_t) (s[0] >> 24)) ^ s[2] ^
+                                   (s[11] >> 8) ^ DIValpha((uint8_t) (s[11] & 0xFF)) ^ extra;
+                for (int i = 0; i < 15; i++)
+                        s[i] = s[i + 1];
+                s[15] = v;
+        }
+        // k[0..3] = k0..k3, iv[0..3] = IV0..IV3 as in the SNOW 3G document
+        void init(const uint32_t k[4], const uint32_t iv[4])
+        {
+                const uint32_t ones = 0xFFFFFFFF;
+                s[15] = k[3] ^ iv[0];
+                s[14] = k[2];
+                s[13] = k[1];
+                s[12] = k[0] ^ iv[1];
+                s[11] = k[3] ^ ones;
+                s[10] = k[2] ^ ones ^ iv[2];
+                s[9] = k[1] ^ ones ^ iv[3];
+                s[8] = k[0] ^ ones;
+                s[7] = k[3];
+                s[6] = k[2];
+                s[5] = k[1];
+                s[4] = k[0];
+                s[3] = k[3] ^ ones;
+                s[2] = k[2] ^ ones;
+                s[1] = k[1] ^ ones;
+                s[0] = k[0] ^ ones;
+                R1 = R2 = R3 = 0;
+                for (int i = 0; i < 32; i++) {
+                        const uint32_t F = clock_fsm();
+                        clock_lfsr(F);
+                }
+                (void) clock_fsm(); // output discarded
+                clock_lfsr(0);
+        }
+        uint32_t next_word()
+        {
+                const uint32_t F = clock_fsm();
+                const uint32_t z = F ^ s[0];
+                clock_lfsr(0);
+                return z;
+        }
+        // 3GPP byte buffers: key = K3|K2|K1|K0, iv = IV3|IV2|IV1|IV0, every word big-endian
+        void init_from_bytes(const uint8_t key[16], const uint8_t iv[16])
+        {
+                uint32_t k[4], v[4];
+                for (int i = 0; i < 4; i++) {
+                        k[3 - i] = be32(key + 4 * i);
+                        v[3 - i] = be32(iv + 4 * i);
+                }
+                init(k, v);
+        }
+};
+
+inline uint64_t MUL64x(uint64_t V, uint64_t c) { return (V >> 63) ? ((V << 1) ^ c) : (V << 1); }
+inline uint64_t MUL64xPOW(uint64_t V, unsigned i, uint64_t c)
+{
+        while (i--)
+                V = MUL64x(V, c);
+        return V;
+}
+inline uint64_t MUL64(uint64_t V, uint64_t P, uint64_t c)
+{
+        uint64_t r = 0;
+        for (unsigned i = 0; i < 64; i++)
+                if ((P >> i) & 1)
+                        r ^= MUL64xPOW(V, i, c);
+        return r;
+}
+
+} // namespace
+
+bool ref_snow3g_f8_keystream(const uint8_t key[16], const uint8_t iv[16], uint8_t *ks, size_t len)
+{
+        Snow3g g;
+        g.init_from_bytes(key, iv);
+        size_t i = 0;
+        while (i < len) {
+                uint8_t w[4];
+                put_be32(w, g.next_word());
+                for (int j = 0; j < 4 && i < len; j++, i++)
+                        ks[i] = w[j];
+        }
+        return true;
+}
+
+bool ref_snow3g_uia2(const uint8_t key[16], const uint8_t iv[16], const uint8_t *msg,
+                     uint32_t bits, Bytes &tag)
+{
+        Snow3g g;
+        g.init_from_bytes(key, iv);
+        uint32_t z[5];
+        for (int i = 0; i < 5; i++)
+                z[i] = g.next_word();
+        const uint64_t P = ((uint64_t) z[0] << 32) | z[1];
+        const uint64_t Q = ((uint64_t) z[2] << 32) | z[3];
+        const uint64_t LENGTH = bits;
+        const uint64_t nblocks = (LENGTH + 63) / 64; // D - 1 message blocks M_0 .. M_{D-2}
+        uint64_t EVAL = 0;
+        for (uint64_t b = 0; b < nblocks; b++) {
+                uint64_t M = 0; // block b, zero padded after bit LENGTH-1
+                for (unsigned j = 0; j < 64; j++) {
+                        const uint64_t bit = b * 64 + j;
+                        M <<= 1;
+                        if (bit < LENGTH)
+                                M |= msg_bit(msg, bit);
+                }
+                EVAL = MUL64(EVAL ^ M, P, 0x1B);
+        }
+        EVAL ^= LENGTH; // M_{D-1}
+        EVAL = MUL64(EVAL, Q, 0x1B);
+        const uint32_t mac = (uint32_t) (EVAL >> 32) ^ z[4];
+        tag.assign(4, 0);
+        put_be32(tag.data(), mac);
+        return true;
+}
+
+// ===========================================================================
+// KASUMI (TS 35.202) and f8 / f9 (TS 35.201)
+// ===========================================================================
+namespace
+{
+
+struct Kasumi {
+        uint16_t KL1[8], KL2[8], KO1[8], KO2[8], KO3[8], KI1[8], KI2[8], KI3[8];
+
+        explicit Kasumi(const uint8_t key[16])
+        {
+                static const uint16_t C[8] = { 0x0123, 0x4567, 0x89AB, 0xCDEF,
+                                               0xFEDC, 0xBA98, 0x7654, 0x3210 };
+                uint16_t K[8], Kp[8];
+                for (int j = 0; j < 8; j++) {
+                        K[j] = (uint16_t) ((key[2 * j] << 8) | key[2 * j + 1]);
+                        Kp[j] = K[j] ^ C[j];
+                }
+                for (int i = 0; i < 8; i++) { // round i+1
+                        KL1[i] = rol16(K[i], 1);
+                        KL2[i] = Kp[(i + 2) & 7];
+                        KO1[i] = rol16(K[(i + 1) & 7], 5);
+                        KO2[i] = rol16(K[(i + 5) & 7], 8);
+                        KO3[i] = rol16(K[(i + 6) & 7], 13);
+                        KI1[i] = Kp[(i + 4) & 7];
+                        KI2[i] = Kp[(i + 3) & 7];
+                        KI3[i] = Kp[(i + 7) & 7];
+                }
+        }
+
+        static uint16_t FI(uint16_t in, uint16_t ki)
+        {
+                uint16_t nine = in >> 7;    // L0, 9 bits
+                uint16_t seven = in & 0x7F; // R0, 7 bits
+                // L1 = R0, R1 = S9[L0] ^ ZE(R0)
+                nine = ref_kasumi_S9[nine] ^ seven;
+                // L2 = R1 ^ KI2 (9 bit), R2 = S7[L1] ^ TR(R1) ^ KI1 (7 bit)
+                seven = ref_kasumi_S7[seven] ^ (nine & 0x7F);
+                seven ^= (ki >> 9);
+                nine ^= (ki & 0x1FF);
+                // L3 = R2, R3 = S9[L2] ^ ZE(R2)
+                nine = ref_kasumi_S9[nine] ^ seven;
+                // L4 = S7[L3] ^ TR(R3), R4 = R3
+                seven = ref_kasumi_S7[seven] ^ (nine & 0x7F);
+                return (uint16_t) ((seven << 9) | nine);
+        }
+        uint32_t FO(uint32_t in, int r) const
+        {
+                uint16_t L = (uint16_t) (in >> 16), R = (uint16_t) in;
+                const uint16_t ko[3] = { KO1[r], KO2[r], KO3[r] };
+                const uint16_t ki[3] = { KI1[r], KI2[r], KI3[r] };
+                for (int j = 0; j < 3; j++) {
+                        const uint16_t newR = FI(L ^ ko[j], ki[j]) ^ R;
+                        L = R;
+                        R = newR;
+                }
+                return ((uint32_t) L << 16) | R;
+        }
+        uint32_t FL(uint32_t in, int r) const
+        {
+                uint16_t L = (uint16_t) (in >> 16), R = (uint16_t) in;
+                R ^= rol16(L & KL1[r], 1);
+                L ^= rol16(R | KL2[r], 1);
+                return ((uint32_t) L << 16) | R;
+        }
+        uint64_t encrypt(uint64_t in) const
+        {
+                uint32_t L = (uint32_t) (in >> 32), R = (uint32_t) in;
+                for (int r = 0; r < 8; r++) {
+                        uint32_t f;
+                        if ((r & 1) == 0) // odd rounds 1,3,5,7: FL then FO
+                                f = FO(FL(L, r), r);
+                        else // even rounds: FO then FL
+                                f = FL(FO(L, r), r);
+                        const uint32_t newL = R ^ f;
+                        R = L;
+                        L = newL;
+                }
+                return ((uint64_t) L << 32) | R;
+        }
+};
+
+inline uint64_t be64(const uint8_t *p) { return ((uint64_t) be32(p) << 32) | be32(p + 4); }
+
+} // namespace
+
+uint64_t ref_kasumi_block(const uint8_t key[16], uint64_t in) { return Kasumi(key).encrypt(in); }
+
+bool ref_kasumi_f8_keystream(const uint8_t key[16], const uint8_t iv[8], uint8_t *ks, size_t len)
+{
+        uint8_t mk[16];
+        for (int i = 0; i < 16; i++)
+                mk[i] = key[i] ^ 0x55; // CK xor KM
+        const Kasumi kc(key), km(mk);
+        const uint64_t A = km.encrypt(be64(iv));
+        uint64_t KSB = 0, BLKCNT = 0;
+        size_t i = 0;
+        while (i < len) {
+                KSB = kc.encrypt(A ^ BLKCNT ^ KSB);
+                BLKCNT++;
+                for (int j = 0; j < 8 && i < len; j++, i++)
+                        ks[i] = (uint8_t) (KSB >> (56 - 8 * j));
+        }
+        return true;
+}
+
+bool ref_kasumi_f9_user(const uint8_t key[16], const uint8_t *msg, size_t len, Bytes &tag)
+{
+        uint8_t mk[16];
+        for (int i = 0; i < 16; i++)
+                mk[i] = key[i] ^ 0xAA; // IK xor KM
+        const Kasumi ki(key), km(mk);
+        uint64_t A = 0, B = 0;
+        for (size_t off = 0; off < len; off += 8) {
+                uint8_t blk[8] = { 0 };
+                const size_t n = (len - off < 8) ? (len - off) : 8;
+                memcpy(blk, msg + off, n);
+                A = ki.encrypt(A ^ be64(blk));
+                B ^= A;
+        }
+        B = km.encrypt(B);
+        tag.assign(4, 0);
+        put_be32(tag.data(), (uint32_t) (B >> 32));
+        return true;
+}
